@@ -5,10 +5,14 @@ import Driver.Common
    parameters regenerated from src/String.c (`CelloGen.Str.params`) and the junk byte 0xA5 the harness's `v_realloc`
    uses; prints the same `O` lines (dump of the whole allocation after every op), and after every mutation an `R`
    line: does the model's text equal the specification's (`Spec.step` on the abstract string kept beside it), is the
-   state well-formed, were all accesses in bounds. -/
+   state well-formed, were all accesses in bounds.  Formatted writes through `print_to_with` / `show_to` (`pf`, `show`) run
+   `Cello.Str.emit` with the position arithmetic regenerated from src/Show.c (`CelloGen.Str.posParams`); their R line also
+   says whether the returned position is where the written text ends. -/
 open Cello.Str
 
 def P : Params := CelloGen.Str.params
+/-- the position arithmetic of `print_to_with` as the translator read it from src/Show.c on this run -/
+def Q : PosParams := CelloGen.Str.posParams
 def J : Nat → Byte := fun _ => 0xA5
 
 def maxT : Nat := 16384
@@ -52,6 +56,9 @@ structure World where
   nShrink : Nat := 0
   nFmtIn : Nat := 0
   nFmtOut : Nat := 0
+  nPct : Nat := 0        -- formatted writes whose format has a `%%`
+  nShow : Nat := 0       -- formatted writes that went through `show_to`
+  nCalls : Nat := 0      -- `format_to` calls made by `print_to_with` / `show_to`
   nStale : Nat := 0      -- states whose allocation is larger than the text + terminator
   nDisagree : Nat := 0
 
@@ -64,12 +71,12 @@ def dumpLine (name : String) (k : Nat) (outcome : String) (s : Str) : String :=
 
 /-- record the result of a mutation: O line, R line, statistics -/
 def World.commit (w : World) (name : String) (k : Nat) (st : Str) (outcome : String) (safe : Bool)
-    (specText : List Byte) : IO World := do
+    (specText : List Byte) (retOk : Bool := true) : IO World := do
   let outcome := if safe then outcome else "UB(out-of-bounds access)"
   IO.println (dumpLine name k outcome st)
-  let agree := st.abs == specText && st.wfb && safe
+  let agree := st.abs == specText && st.wfb && safe && retOk
   IO.println (if agree then s!"R {name} {k} agree" else
-    s!"R {name} {k} DISAGREE model={hexOf st.abs} spec={hexOf specText} wf={st.wfb} safe={safe}")
+    s!"R {name} {k} DISAGREE model={hexOf st.abs} spec={hexOf specText} wf={st.wfb} safe={safe} position-is-end-of-text={retOk}")
   return { w with objs := w.objs.set! k (some st), spec := w.spec.set! k (some specText), nMut := w.nMut + 1,
                   nStale := w.nStale + (if st.cap > st.abs.length + 1 then 1 else 0),
                   nDisagree := w.nDisagree + (if agree then 0 else 1) }
@@ -77,6 +84,9 @@ def World.commit (w : World) (name : String) (k : Nat) (st : Str) (outcome : Str
 def outcomeStr : Outcome → String
   | .ok _ => "ok"
   | .raised .ValueError => "ValueError"
+  | .raised .ClassError => "ClassError"
+  | .raised .FormatError => "FormatError"
+  | .rejected => "rejected"
 
 inductive Frag where
   | lit (t : List Byte) | str (t : List Byte) | shown (t : List Byte)
@@ -108,6 +118,58 @@ def fragCalls (fs : List Frag) : List (List Byte) :=
     | .lit t => [t]
     | .str t => [t]
     | .shown t => showFrags t
+
+/-- the Int argument `i<dec>` of a `pf`/`show` op: `-?[0-9]{1,19}` within int64 (what the harness accepts via strtoll) -/
+def parseInt64 (t : String) : Option Int :=
+  let neg := t.startsWith "-"
+  let d : String := if neg then String.ofList (t.toList.drop 1) else t
+  if d.length < 1 || d.length > 19 || !(d.all Char.isDigit) then none
+  else
+    let n : Int := d.toNat!
+    let v := if neg then -n else n
+    if v < -(2 ^ 63) || v ≥ 2 ^ 63 then none else some v
+
+/-- one argument: `i<int64>` | `s<hex>` | `t<n> A1 … An` (n ≤ 6, a Tuple below depth 3 only); returns the unread tokens -/
+def parseArg : Nat → Nat → List String → Option (Val × List String)
+  | 0, _, _ => none
+  | _, _, [] => none
+  | fuel + 1, depth, t :: rest =>
+    match t.toList with
+    | 'i' :: body => (parseInt64 (String.ofList body)).map fun v => (Val.int v, rest)
+    | 's' :: body => (dehex (String.ofList body)).map fun x => (Val.str x, rest)
+    | ['t', c] =>
+      if depth ≥ 3 || c < '0' || c > '6' then none
+      else
+        let rec items (fuel : Nat) : Nat → List String → List Val → Option (List Val × List String)
+          | 0, rest, acc => some (acc.reverse, rest)
+          | n + 1, rest, acc =>
+            match parseArg fuel (depth + 1) rest with
+            | some (v, rest') => items fuel n rest' (v :: acc)
+            | none => none
+        (items fuel (c.toNat - 48) rest []).map fun (vs, rest') => (Val.tup vs, rest')
+    | _ => none
+
+/-- all arguments of an op (at most 8; every token consumed) -/
+def parseArgs : Nat → List String → List Val → Option (List Val)
+  | _, [], acc => some acc.reverse
+  | 0, _, _ => none
+  | fuel + 1, toks, acc =>
+    if acc.length = 8 then none
+    else match parseArg 64 1 toks with
+      | some (v, rest) => parseArgs fuel rest (v :: acc)
+      | none => none
+
+mutual
+def valBytes : Val → Nat
+  | .int _ => 0
+  | .str t => t.length
+  | .tup vs => valsBytes vs
+def valsBytes : List Val → Nat
+  | [] => 0
+  | v :: r => valBytes v + valsBytes r
+end
+
+def hasCall (items : List Item) : Bool := !(callTexts items).isEmpty
 
 def bad : IO Unit := IO.println "O bad-op"
 
@@ -197,6 +259,70 @@ def stepOp (w : World) (toks : List String) : IO World := do
       let specText := if pos ≤ a.length then a.take pos ++ calls.flatten else a
       let w := if pos ≤ s.abs.length then { w with nFmtIn := w.nFmtIn + 1 } else { w with nFmtOut := w.nFmtOut + 1 }
       w.commit op k st s!"ret={ret}" (lg.all Acc.inBounds) specText
+    | "pf", pt :: ft :: ats, some s =>
+      let some pos := num pt | do bad; return w
+      if pos > 1000000 then bad; return w
+      let some fmt := dehex ft | do bad; return w
+      let some args := parseArgs 64 ats [] | do bad; return w
+      if valsBytes args > 4096 then bad; return w
+      let some segs := parseFmt fmt | do bad; return w
+      -- `%$` takes no flags / width in this op
+      if segs.any (fun | .spec b c => c == 36 && !b.isEmpty | _ => false) then bad; return w
+      let some items := plan renderSpec showVal segs args | do bad; return w
+      let (st, ret, lg) := emit P Q J s pos [] items
+      let a := w.getSpec k
+      let specText := if pos ≤ a.length && hasCall items then a.take pos ++ textOf items else a
+      let w := if pos ≤ s.abs.length then { w with nFmtIn := w.nFmtIn + 1 } else { w with nFmtOut := w.nFmtOut + 1 }
+      let w := { w with nPct := w.nPct + (if segs.contains .pct then 1 else 0), nShow := w.nShow + (if items.contains .enter then 1 else 0),
+                        nCalls := w.nCalls + (callTexts items).length }
+      -- the returned position must be where the written text ends (pos > len: outside the property, only the buffer is compared)
+      let retOk := ret == pos + (textOf items).length
+      w.commit op k st s!"ret={ret}" (lg.all Acc.inBounds && items.all Item.okb) specText retOk
+    | "show", pt :: ats, some s =>
+      let some pos := num pt | do bad; return w
+      if pos > 1000000 then bad; return w
+      let some args := parseArgs 64 ats [] | do bad; return w
+      if valsBytes args > 4096 then bad; return w
+      let [arg] := args | do bad; return w
+      let items := showVal arg
+      let (st, ret, lg) := emit P Q J s pos [] items
+      let a := w.getSpec k
+      let specText := if pos ≤ a.length then a.take pos ++ textOf items else a
+      let w := if pos ≤ s.abs.length then { w with nFmtIn := w.nFmtIn + 1 } else { w with nFmtOut := w.nFmtOut + 1 }
+      let w := { w with nShow := w.nShow + 1, nCalls := w.nCalls + (callTexts items).length }
+      let retOk := ret == pos + (textOf items).length
+      w.commit op k st s!"ret={ret}" (lg.all Acc.inBounds && items.all Item.okb) specText retOk
+    | "remi", [nt], some s =>
+      let some _ := parseInt64 nt | do bad; return w
+      if nt.length ≥ 30 then bad; return w
+      let r := remArg P s none                 -- an Int has no C string
+      let w := { w with nRaised := w.nRaised + 1 }
+      w.commit op k r.st (outcomeStr r.out) r.safe (w.getSpec k)
+    | "fmtrej", [pt], some s =>
+      let some pos := num pt | do bad; return w
+      if pos > 1000000 then bad; return w
+      let r := formatToR P J s pos none        -- libc rejects `%lc` of U+10FFFF in the C locale
+      w.commit op k r.st (outcomeStr r.out) r.safe (w.getSpec k)
+    | "pfrej", [pt, t], some s =>
+      let some pos := num pt | do bad; return w
+      if pos > 1000000 then bad; return w
+      let some x := dehex t | do bad; return w
+      if x.contains 0x25 then bad; return w
+      let items : List Item := (if x.isEmpty then [] else [.call .lit x.length x]) ++ [.rejected .chr, .call .lit 1 [90]]
+      let (st, _, lg) := emit P Q J s pos [] items
+      let a := w.getSpec k
+      let specText := if pos ≤ a.length && !x.isEmpty then a.take pos ++ x else a
+      w.commit op k st (if raisesFormat items then "FormatError" else "ok") (lg.all Acc.inBounds) specText
+    | "scanw", [pt], some s =>
+      let some pos := num pt | do bad; return w
+      if pos > 1000000 || pos > len s then bad; return w
+      match scanWord s pos with
+      | none => IO.println s!"O scanw {k} exc=FormatError ret=-1 n=0 w=-"; return w
+      | some (wd, ret) =>
+        -- the reader sees exactly the abstract string from `pos` on
+        let ref := ((w.getSpec k).drop pos).dropWhile isSpace |>.takeWhile (fun b => !isSpace b)
+        IO.println s!"O scanw {k} exc=none ret={ret} n={wd.length} w={preview wd}"
+        return { w with nDisagree := w.nDisagree + (if ref == wd then 0 else 1) }
     | "len", [], some s => IO.println s!"O len {k} {len s}"; return w
     | "cstr", [], some s =>
       IO.println s!"O cstr {k} n={(cstr s).length} fnv={hex64 (fnv64 (cstr s))}"; return w
@@ -231,4 +357,4 @@ def main (args : List String) : IO Unit := do
     if toks.isEmpty then continue
     nOps := nOps + 1
     w ← stepOp w toks
-  IO.println s!"S ops={nOps} mutations={w.nMut} raised={w.nRaised} remFound={w.nRemFound} grow={w.nGrow} shrink={w.nShrink} fmtIn={w.nFmtIn} fmtOut={w.nFmtOut} slack={w.nStale} disagree={w.nDisagree}"
+  IO.println s!"S ops={nOps} mutations={w.nMut} raised={w.nRaised} remFound={w.nRemFound} grow={w.nGrow} shrink={w.nShrink} fmtIn={w.nFmtIn} fmtOut={w.nFmtOut} pct={w.nPct} show={w.nShow} calls={w.nCalls} slack={w.nStale} disagree={w.nDisagree}"
